@@ -14,26 +14,30 @@ def exposing (u : Updater) : Updater := { u with returnInputOnNoop := true }
 
 theorem exposing_returns_object (u : Updater) (sc : Schema) (live cfg : TV) (ver : String) (m : Managed)
     (mgr : String) (force : Bool) (o : Option TV) (mf : Managed) :
-    apply (exposing u) sc live cfg ver m mgr force = .ok (o, mf) → o.isSome = true := sorry
+    apply (exposing u) sc live cfg ver m mgr force = .ok (o, mf) → o.isSome = true :=
+  apply_noop_isSome (u' := exposing u) rfl sc live cfg ver m mgr force o mf
 
 /-- exactness of the no-op signal -/
 theorem noop_signal_exact (u : Updater) (sc : Schema) (live cfg : TV) (ver : String) (m : Managed)
     (mgr : String) (force : Bool) (res : TV) (mf : Managed) (h : u.returnInputOnNoop = false) :
     apply (exposing u) sc live cfg ver m mgr force = .ok (some res, mf) →
       apply u sc live cfg ver m mgr force =
-        .ok (if Value.equals live.value res.value then none else some res, mf) := sorry
+        .ok (if Value.equals live.value res.value then none else some res, mf) :=
+  apply_noop_signal (u := u) (u' := exposing u) rfl rfl rfl h sc live cfg ver m mgr force res mf
 
 /-- and conversely every successful apply arises this way -/
 theorem noop_signal_exact_conv (u : Updater) (sc : Schema) (live cfg : TV) (ver : String) (m : Managed)
     (mgr : String) (force : Bool) (o : Option TV) (mf : Managed) (h : u.returnInputOnNoop = false) :
     apply u sc live cfg ver m mgr force = .ok (o, mf) →
       ∃ res, apply (exposing u) sc live cfg ver m mgr force = .ok (some res, mf) ∧
-        o = (if Value.equals live.value res.value then none else some res) := sorry
+        o = (if Value.equals live.value res.value then none else some res) :=
+  apply_noop_signal_conv (u := u) (u' := exposing u) rfl rfl rfl h sc live cfg ver m mgr force o mf
 
 /-- the ownership result does not depend on the signalling mode -/
 theorem ownership_independent_of_noop_mode (u : Updater) (sc : Schema) (live cfg : TV) (ver : String) (m : Managed)
     (mgr : String) (force : Bool) (c : List (String × Path)) :
     apply u sc live cfg ver m mgr force = .conflict c ↔
-      apply (exposing u) sc live cfg ver m mgr force = .conflict c := sorry
+      apply (exposing u) sc live cfg ver m mgr force = .conflict c :=
+  apply_conflict_iff_of_same (u := u) (u' := exposing u) rfl rfl sc live cfg ver m mgr force c
 
 end SMD.C07
